@@ -221,6 +221,8 @@ struct World
 			// bind to a specific local address of the right family
 			ip::address la;
 			for (auto const& ad : n.addrs) if (ad.is_v4() == v4) la = ad;
+			// every third explicit bind is to the wildcard address of the family (the node has one address per family)
+			if (cs.addr_idx == 1) { la = v4 ? ip::address(ip::address_v4::any()) : ip::address(ip::address_v6::any()); R().count("connectors_bound_to_the_wildcard_address"); }
 			API(c.s->open(v4 ? ip::tcp::v4() : ip::tcp::v6(), ec));
 			// port 0, or a fixed port -- possibly the very number the acceptor listens on (on another node)
 			API(c.s->bind(ip::tcp::endpoint(la, cs.bind_port), ec));
@@ -585,7 +587,7 @@ Scenario gen(Args const& a, Rng& rng, bool nat_focus)
 		cs.node = ok[std::size_t(rng.choose(int(ok.size())))];
 		cs.t = horizon ? rng.range(0, horizon) : 0;
 		cs.bind_explicit = rng.coin(1, 3);
-		cs.addr_idx = 0;
+		cs.addr_idx = rng.coin(1, 3) ? 1 : 0; // 1: bind to the wildcard address
 		cs.bind_port = 0;
 		// at most one client per scenario uses a fixed local port (SYNs are identified by source port)
 		if (cs.bind_explicit && !fixed_port_used && rng.coin() && sc.nodes[std::size_t(cs.node)].addrs[0] != sc.accs[std::size_t(cs.acc)].addr)
